@@ -29,6 +29,9 @@ THEOREMS = [
     "HedVerif.C05.refuse_iff",
     "HedVerif.C05.strip_inlibrary",
     "HedVerif.C05.merged_keeps_everything",
+    "HedVerif.C05.wiki_order_counterexample",
+    "HedVerif.C05.unit_classes_unmerged",
+    "HedVerif.C05.unit_classes_merged",
     "HedVerif.C05.rooted_relevel",
     "HedVerif.C05.child_keeps_shift",
     "HedVerif.C05.loaded_descriptions_trimmed",
@@ -386,10 +389,61 @@ class EditGen:
             attrs.append(["inLibrary", [self.lib]])
         return {"desc": self.desc(), "attrs": attrs}
 
+    def std_unit_classes(self):
+        """unit classes of the partner schema inside a partnered library file (no inLibrary)"""
+        return [x.findtext("name") for x in self.root.find("unitClassDefinitions") if not self.is_lib(x)]
+
+    def unit_attrs(self):
+        r = self.rng
+        attrs = r.sample([["SIUnit", []], ["unitSymbol", []], ["conversionFactor", [r.choice(["1.0", "0.001", "1000.0"])]]],
+                         r.randint(0, 3))
+        return [a for a in attrs if a[0] in self.declared]
+
+    def lib_unit_in(self, class_name):
+        lib_attr = [["inLibrary", [self.lib]]] if self.lib else []
+        return {"op": "add_unit", "class": class_name, "name": self.fresh("verifunit"), "desc": self.desc() or "A unit.",
+                "attrs": self.unit_attrs() + lib_attr}
+
+    def partnered_units_ops(self, std_class):
+        """a partnered library that puts a library unit into the given unit class of its partner AND defines a unit
+        class (with units), a unit modifier and a value class of its own, all with descriptions and attributes"""
+        lib_attr = [["inLibrary", [self.lib]]]
+        u1, u2 = self.fresh("verifunit"), self.fresh("verifunit")
+        own = {"op": "add_unit_class", "name": self.fresh("verifUnits"), "desc": self.desc() or "Own units.",
+               "attrs": ([["defaultUnits", [u1]]] if "defaultUnits" in self.declared else []) + lib_attr,
+               "units": [{"name": u1, "desc": self.desc() or "First unit.",
+                          "attrs": ([["conversionFactor", ["1.0"]]] if "conversionFactor" in self.declared else []) + lib_attr},
+                         {"name": u2, "desc": self.desc(), "attrs": self.unit_attrs() + lib_attr}]}
+        mod = {"op": "add_entry", "section": "unit_modifiers", "name": self.fresh("verifmod"), "desc": self.desc() or "A modifier.",
+               "attrs": [["SIUnitModifier", []]] + ([["conversionFactor", ["10000000.0"]]] if "conversionFactor" in self.declared else []) + lib_attr}
+        chars = sorted(self.rng.sample(["letters", "digits", "blank", "hyphen", "period"], self.rng.randint(1, 3)))
+        vc = {"op": "add_entry", "section": "value_classes", "name": self.fresh("verifClass"), "desc": self.desc() or "A value class.",
+              "attrs": ([["allowedCharacter", chars]] if "allowedCharacter" in self.declared else []) + lib_attr}
+        return [self.lib_unit_in(std_class), own, mod, vc]
+
+    def rooted_ops(self, top):
+        """a library node rooted at a non-root node inside the partner's top-level subtree `top`, with a child"""
+        pool = [(l, n) for l, n in self.tags if l.startswith(top + "/") and not l.endswith("#") and not self.is_lib(n)
+                and not any(c.findtext("name") == "#" for c in n.findall("node"))]
+        if not pool:
+            return None
+        parent = self.rng.choice(pool)[0]
+        lib_attr = [["inLibrary", [self.lib]]]
+        name = self.fresh("Verif-rooted")
+        return [{"op": "add_node", "parent": parent, "name": name, "desc": self.desc(),
+                 "attrs": [["rooted", [parent.rsplit("/", 1)[-1]]]] + lib_attr, "value_child": None},
+                {"op": "add_node", "parent": parent + "/" + name, "name": self.fresh(), "desc": self.desc(),
+                 "attrs": lib_attr, "value_child": self.value_child() if self.rng.random() < 0.5 else None}]
+
     def op(self):
         r = self.rng
         kind = r.choice(["add_node", "add_node", "add_value_node", "remove_node", "reattr", "desc", "desc", "add_unit",
-                         "add_unit_class", "add_value_class", "add_modifier", "desc_other"])
+                         "add_unit_class", "add_value_class", "add_modifier", "desc_other", "add_lib_unit_std"])
+        if kind == "add_lib_unit_std":
+            std = self.std_unit_classes() if self.lib else []
+            if not std:
+                return self.op()
+            return self.lib_unit_in(r.choice(std))
         cands = [(l, n) for l, n in self.tags if not l.endswith("#")]
         open_cands = [(l, n) for l, n in cands if not any(c.findtext("name") == "#" for c in n.findall("node"))]
         if kind in ("add_node", "add_value_node"):
@@ -561,10 +615,30 @@ def save_load(impl, schema, fmt, merged, via_file=False):
         shutil.rmtree(d, ignore_errors=True)
 
 
-def check_schema(ctx, impl, case, schema, source_vocab, formats, families=(), via_file=False):
-    """the property's oracle on one schema: save -> load -> ==, cross-format, independent XML walk.
+def is_preorder(entries):
+    """every tag is listed after its parent and inside its parent's block (what the MediaWiki writer relies on)"""
+    prev = []
+    for e in entries:
+        cs = e.name.split("/")
+        if len(cs) - 1 > len(prev) or cs[:-1] != prev[:len(cs) - 1]:
+            return False
+        prev = cs
+    return True
+
+
+def partner_classes_with_lib_units(schema):
+    if not schema.with_standard:
+        return []
+    return [uc.name for uc in schema.unit_classes.values() if "inLibrary" not in uc.attributes
+            and any("inLibrary" in u.attributes for u in uc.units.values())]
+
+
+def check_schema(ctx, impl, case, schema, source_vocab, formats, families=(), via_file=False, second_gen=False):
+    """the property's oracle on one schema: save -> load -> ==, cross-format, independent XML walk; with
+    `second_gen` also: the schema reloaded from its unmerged XML save is saved merged in every format and reloaded.
     Returns the number of violations it reported."""
     before = len(ctx.violations)
+    ext_classes = partner_classes_with_lib_units(schema)
 
     def report(clause, fmt, merged, detail, pair=()):
         """a violation gets a registered signature only if it is the defect of the probe family: right format(s),
@@ -577,6 +651,11 @@ def check_schema(ctx, impl, case, schema, source_vocab, formats, families=(), vi
             at_entry = clause == "save-load-raised" or target in str(detail).casefold()
             if on_fmt and at_entry:
                 sig = s
+        # structural findings (registered with a narrow signature): see the notes in `run`
+        text = str(detail).casefold()
+        if sig is None and not merged and ext_classes and clause in ("reload-differs", "formats-disagree") and \
+                (fmt == "tsv" or "tsv" in pair) and "duplicate names" in text and any(c.casefold() in text for c in ext_classes):
+            sig = "C05-tsv-unmerged-partner-unit-class"
         ctx.violation(clause, dict(case, fmt=fmt, merged=merged), detail, sig)
     for merged in modes_of(schema):
         loaded = {}
@@ -603,6 +682,24 @@ def check_schema(ctx, impl, case, schema, source_vocab, formats, families=(), vi
         for a, b in zip(fm, fm[1:]):
             if not (loaded[a] == loaded[b]):
                 report("formats-disagree", "cross", merged, f"{a} vs {b}: " + str(first_diff(loaded[a], loaded[b])), (a, b))
+        if second_gen and not merged and "xml" in loaded and loaded["xml"] == schema:
+            # second generation: the library as a user gets it from its unmerged file (library entries behind the
+            # partner's), saved merged in every format and reloaded
+            s2 = loaded["xml"]
+            ordered = is_preorder(s2.tags.all_entries)
+            ctx.count("second-generation:" + ("tree-order" if ordered else "NOT-tree-order"))
+            for fmt in formats:
+                c2 = dict(case, fmt=fmt, merged=True, stage="reloaded from the unmerged XML save, then saved merged")
+                try:
+                    got, _ = save_load(impl, s2, fmt, True)
+                except Exception as e:
+                    sig = "C05-wiki-merged-rooted-order" if fmt == "mediawiki" and not ordered else None
+                    ctx.violation("second-generation-save-load-raised", c2, f"{type(e).__name__}: {str(e)[:200]}", sig)
+                    continue
+                ctx.count(f"roundtrip:{fmt}:second-generation")
+                if not (got == s2):
+                    sig = "C05-wiki-merged-rooted-order" if fmt == "mediawiki" and not ordered else None
+                    ctx.violation("second-generation-reload-differs", c2, first_diff(s2, got), sig)
     return len(ctx.violations) - before
 
 
@@ -619,6 +716,10 @@ def first_diff(a, b):
                     if isinstance(ea, list) or isinstance(eb, list):
                         return f"{key}: {k!r} duplicates differ"
                     return f"{key}: {k!r} attrs {dict(ea.attributes)!r} / {dict(eb.attributes)!r} desc {ea.description!r} / {eb.description!r}"[:400]
+        for key in a._sections:
+            da, db = a._sections[key].duplicate_names, b._sections[key].duplicate_names
+            if set(da) != set(db):
+                return f"{key}: duplicate names on one side only: {sorted(set(da) ^ set(db))}"
         if a.get_save_header_attributes() != b.get_save_header_attributes():
             return f"header {a.get_save_header_attributes()} / {b.get_save_header_attributes()}"
         return "prologue/epilogue or section flags"
@@ -1125,7 +1226,7 @@ def run_bundled(ctx, impl, name, files, via_file):
     case = {"kind": "bundled", "schema": name, "via_file": via_file}
     ctx.case(("bundled", name, via_file), nontrivial=True, sample=case)
     ctx.count("bundled-compliance-issues:" + name, len(compliance_codes(schema)))
-    check_schema(ctx, impl, case, schema, source, formats, via_file=via_file)
+    check_schema(ctx, impl, case, schema, source, formats, via_file=via_file, second_gen=not via_file)
     if not via_file:
         model_correspondence(ctx, impl, case, schema)
         model_documents(ctx, impl, case, schema, with_tsv=name not in LEGACY)
@@ -1173,7 +1274,8 @@ def run_edit(ctx, impl, name, files, ops, families=(), malformed=False, with_mod
         ctx.count("edit-op:" + op["op"])
     for f in families:
         ctx.count("edit-family:" + f)
-    check_schema(ctx, impl, case, schema, xml_vocab(root), formats, families)
+    second = any(op["op"] == "add_node" and any(a[0] == "rooted" for a in op["attrs"]) for op in ops)
+    check_schema(ctx, impl, case, schema, xml_vocab(root), formats, families, second_gen=second)
     if with_model and not families:
         model_correspondence(ctx, impl, case, schema)
         model_documents(ctx, impl, case, schema, with_tsv=name not in LEGACY)
@@ -1240,10 +1342,58 @@ def run_merged_refusal(ctx, impl):
     shutil.rmtree(d, ignore_errors=True)
 
 
+def run_partnered_units(ctx, impl, files, names, quick):
+    """partnered libraries that extend a unit class of their partner (every class in turn, first and last included)
+    and define unit classes / units / modifiers / value classes of their own: the unmerged save must write the
+    partner's class as a bare placeholder and the library's classes in full"""
+    partnered = [n for n in names if n not in LEGACY and ET.parse(files[n]).getroot().attrib.get("withStandard")]
+    for k, n in enumerate(partnered):
+        root = ET.parse(files[n]).getroot()
+        std = EditGen(ctx.rng, root, n).std_unit_classes()
+        if not std:
+            continue
+        if quick:
+            picks = [std[0], std[-1]] if k == 0 else [std[-1]] if k == 1 else []
+        elif k < 2:
+            picks = std                      # every class of the partner in turn (one library per partner version)
+        else:
+            picks = [std[0], std[-1]] + ctx.rng.sample(std[1:-1], min(2, len(std) - 2))
+        for c in picks:
+            g = EditGen(ctx.rng, ET.parse(files[n]).getroot(), n, allowed_words(impl, n, files))
+            before = len(ctx.violations) + len(ctx.disagreements)
+            run_edit(ctx, impl, n, files, g.partnered_units_ops(c), with_model=True)
+            pos = "last" if c == std[-1] else ("first" if c == std[0] else "middle")
+            ctx.count(f"partnered-units:{pos}-partner-class")
+            if len(ctx.violations) + len(ctx.disagreements) > before:
+                ctx.count("partnered-units:failed")
+            ctx.check_time()
+
+
+def run_rooted(ctx, impl, files, names, quick):
+    """partnered libraries with a tag rooted at a non-root node of each top-level subtree of the partner (the subtrees
+    differ in whether the tag section keeps them sorted); includes the second-generation round trip"""
+    partnered = [n for n in names if n not in LEGACY and ET.parse(files[n]).getroot().attrib.get("withStandard")]
+    for k, n in enumerate(partnered):
+        root = ET.parse(files[n]).getroot()
+        g0 = EditGen(ctx.rng, root, n)
+        tops = [l for l, node in g0.tags if "/" not in l and not g0.is_lib(node)]
+        if quick:
+            tops = ([t for t in tops if t == "Event"] + [ctx.rng.choice(tops)]) if k == 0 else []
+        for t in tops:
+            g = EditGen(ctx.rng, ET.parse(files[n]).getroot(), n, allowed_words(impl, n, files))
+            ops = g.rooted_ops(t)
+            if ops:
+                run_edit(ctx, impl, n, files, ops)
+                ctx.count("rooted-probe:" + t)
+            ctx.check_time()
+
+
 def run(ctx):
     ctx.extra["rule"] = ("bundled schemas x {xml, mediawiki, tsv} x {merged, unmerged where partnered} (string and file "
                          "round trips), generated XML edits (add/remove/re-attribute nodes, value-taking children, rooted "
-                         "library nodes, units, classes, modifiers, descriptions over the allowed text class), a malformed "
+                         "library nodes, units, classes, modifiers, descriptions over the allowed text class), partnered libraries that "
+                         "put a library unit into each unit class of their partner and define unit classes, units, modifiers "
+                         "and value classes of their own, a malformed "
                          "stream (format delimiters) that must be rejected, four probe families for the registered "
                          "findings; model: every attribute string and wiki line of every written entry, generated and "
                          "mutated attribute strings / lines; non-trivial = a schema actually saved and reloaded, or an "
@@ -1255,6 +1405,13 @@ def run(ctx):
     ctx.notes.append("observation (malformed input, outside the property): a malformed Attributes cell makes the TSV reader "
                      "raise AttributeError/TypeError instead of HedFileError (_get_tag_attributes returns None after recording "
                      "the error); a tag named '#' alone raises IndexError in every reader")
+    ctx.notes.append("structural findings are recognised by what differs, not by the generator: C05-tsv-unmerged-partner-unit-class "
+                     "= unmerged TSV reload (or its comparison with XML/MediaWiki) differs only by a duplicate unit class that "
+                     "belongs to the partner and holds a library unit; C05-wiki-merged-rooted-order = a schema reloaded from its "
+                     "unmerged XML save whose all_entries is not in tree order fails the merged MediaWiki round trip")
+    ctx.notes.append("a '#' child that is followed by sibling nodes breaks the TSV round trip (the '#' row overwrites its "
+                     "parent in known_parent_tags) but the compliance check reports such schemas (placeholder must be an only "
+                     "child): outside the property, not reported")
     ctx.notes.append("prologue/epilogue are outside the property's edit class; observed there (not reported): a literal "
                      "backslash-n, a leading double quote (TSV) and a line starting with a section marker (MediaWiki) "
                      "do not round-trip (escape_counterexample states the first on the model)")
@@ -1281,9 +1438,11 @@ def run(ctx):
             g = EditGen(ctx.rng, ET.parse(files[n]).getroot(), n)
             for fam in FAMILIES:
                 run_edit(ctx, impl, n, files, [g.probe_op(fam)], families=(fam,))
+        run_partnered_units(ctx, impl, files, names, quick)
+        run_rooted(ctx, impl, files, names, quick)
         # generated edits
-        n_schemas = 10 if quick else 300
-        per = 4 if quick else 5
+        n_schemas = 8 if quick else 220
+        per = 5
         pool = [n for n in names]
         for i in range(n_schemas):
             n = pool[i % len(pool)]
